@@ -30,7 +30,7 @@ T = {
 PROVED = {
  "C01": "proved: lit_var/lit_sign/lit_neg, solve_sat.unassign_to, solve_sat.assign (trail consistency), solve_sat.reduce_db / add_watch (every clause with score <= 3, hence every blocking clause, survives the reduction of a database of any size)",
  "C02": "proved: luby (termination, value), solve_sat.unassign_to/assign, reduce_db/add_watch",
- "C03": "proved: check_matrix_dims, simplex._extract", "C04": "proved: _most_fractional, _compute_gap, check_matrix_dims",
+ "C03": "proved: check_matrix_dims, simplex._extract", "C04": "proved: _most_fractional, _compute_gap, _is_feasible (the acceptance test of every heuristic incumbent: True only for a point that is non-negative, integral on the designated entries and satisfies every row within eps), check_matrix_dims",
  "C06": "proved for all Boolean assignments: _encode_eq_const/_ne_const/_ne_var/_at_most_one/_exactly_one",
  "C09": "proved: network_simplex._residual",
  "C10": "proved: solve_hungarian optimality certificate (dual-feasible potentials of the zero-padded matrix, tight row-perfect matching, assignment = its restriction, objective = sum of the original entries, no arithmetic on +-inf), assignment_cost; weak duality and the padding argument are paper lemmas",
